@@ -4,14 +4,24 @@ from propslib import fn_scope
 PROP = dict(
     extract=["editor"],
     lean_targets=["Chewing.Props.C06"],
-    runs=[dict(bin="editor"),
+    runs=[dict(bin="editor"), dict(bin="editor", args=["--script", "c06"], tag="editor-c06-sweep"),
           dict(bin="capi_props", tag="capi_props", args=["--histories", "300", "--calls", "40"], args_thorough=["--histories", "6000", "--calls", "40"])],
     scope=fn_scope("ed key"),
     level="proof",
     exhaustive=False,
     rule="one evaluation = one key step of the real editor (generated histories: weighted grammar + a uniform stream over "
          "all 63 key codes x 16 modifier sets, option/layout/engine changes and API calls in between), recomputed by the model "
-         "from the implementation's own complete pre-state; distinct = distinct record text",
+         "from the implementation's own complete pre-state. Finite sweep (run editor-c06-sweep, `editor --script c06`): every one "
+         "of the 63 key codes x modifier sets (quick: none, Shift, Ctrl, CapsLock, NumLock; thorough: all 16) is sent ONCE, each "
+         "probe from a freshly built editor that replays the scenario, from every kind of situation: every kind of open list "
+         "(phrase list at three cursor positions, forward / rearward choice, 2nd / 3rd range, Space as selection key, simple-engine "
+         "list, after j / k; symbol-category table opened by backquote / Ctrl-1 / Ctrl-0 on an EMPTY and on a NON-EMPTY buffer; a "
+         "category's member list; the symbol table standing in for a symbol without alternatives (action Replace) and its member "
+         "list; special-symbol lists) with page size 2 and the default 10 (thorough: 1, 2, 10) on page 0, 1, (2,) and the last "
+         "page, plus Entering (empty, English, non-empty at three cursor positions, a later conversion alternative chosen), "
+         "EnteringSyllable (empty / non-empty buffer) and Highlighting; #stat c06_probes.* count probes per (state / list kind, page "
+         "position) and per answer, c06_ignored_with_page_gt0 / _with_empty_buffer(_and_open_list) the ignored probes that matter "
+         "most. distinct = distinct record text",
     trusted_base=["hook H1 (Editor::verif_snapshot) is read-only; the layout and conversion answers of each step are recorded "
                   "through wrapper objects installed through the public constructors"],
     assumptions=["'nothing is being composed' = state Entering with an empty pre-edit; an open candidate list or highlight "
@@ -24,9 +34,27 @@ MANIFEST = dict(
          "states and every arm of process_keyevent): ignore_frame / ignore_persistent (an ignored key leaves state, "
          "composition editor, phonetic buffer, options, engine and chosen alternative exactly as before and commits nothing), "
          "bell_frame (pre-edit and cursor untouched), idle_passthrough (the 13 named keys are ignored from the idle state for "
-         "all modifiers and options), result_exclusive — for every environment, by case analysis over all arms. Tie: per-step "
+         "all modifiers and options), result_exclusive — for every environment, by case analysis over all arms. ignore_frame is "
+         "about the WHOLE state value (for an open list: page number, action and the selector itself — phrase range, direction, "
+         "strategy, its copy of the buffer; symbol sub-menu; special symbol) and the whole shared state except the volatile fields "
+         "named below; spelled out by ignore_keeps_open_list (same page, action, selector), ignore_keeps_list_closed (no list is "
+         "opened) and ignore_keeps_candidates (current_page_no, all_candidates, paginated_candidates, total_page and the C-level "
+         "CurrentPage / ChoicePerPage / TotalChoice / TotalPage / Enumerate of Model/Candidates.lean answer exactly as before, for "
+         "every environment; only when a dictionary flush is pending — no key leaves one behind — the flush must not change lookup "
+         "answers: FlushNeutralAt, C09/C10's subject), with the witness ignored_j_on_second_page (symbol table opened on an empty "
+         "buffer, paged to page 1 of 3: j and k are ignored and the list stays on page 1). Tie: per-step "
          "correspondence of the model with the real editor from its own pre-state (hook H1), plus the property evaluated "
-         "directly on the real editor (oracle). F29 and F37 were genuine defects, repaired by fix: commits. C API (round 2, run capi_props): generated key/API histories (every chewing_handle_* handler incl. Default with all printable characters and non-characters, chewing_cand_*, option setters, buffer calls; three kinds of data directory) are driven through a C context and in lock-step through a twin chewing::editor::Editor built over the same data; after every call every C getter is compared with the twin's Rust getter (by-design differences modelled one by one: static vs heap strings, stateful Enumerate iterators, legacy zuin_*, chewing_ack) and this property's statement is evaluated on the C observations before/after the call; a difference or a failing statement is an oracle verdict with the history (FX2: the handlers narrowed the int key with `as u8`, repaired by fix a8c8390).",
+         "directly on the real editor (oracle) on every step of the generated histories and of the finite key sweep. The oracle's "
+         "'nothing observable changes' for an ignored key = snapshot sections state (state kind; page, action, selector kind, range "
+         "/ sub-menu / symbol of an open list), composition editor (cursor, saved cursors, symbols, gaps, selections), phonetic "
+         "buffer, engine + symbol tables, all 14 options, the chosen alternative, the dictionaries (system layers, user entries, "
+         "tombstones), AND the getters before / after: is a list open, current_page_no, total_page, all_candidates, "
+         "paginated_candidates, page size, display(), len(). Excluded, with reason: `last` (it IS the answer); commit and "
+         "notification strings (per-key outputs, reset by every key: they must be EMPTY after an ignored key, which is checked); "
+         "the pending-flush level `dirty` and the estimator clock `time` (internal: no getter shows them; the clock ticks on every "
+         "key by design). Bell: composition-editor section unchanged, display() and len() unchanged. F29 and F37 were genuine "
+         "defects, repaired by fix: commits. "
+         "C API (round 2, run capi_props): generated key/API histories (every chewing_handle_* handler incl. Default with all printable characters and non-characters, chewing_cand_*, option setters, buffer calls; three kinds of data directory) are driven through a C context and in lock-step through a twin chewing::editor::Editor built over the same data; after every call every C getter is compared with the twin's Rust getter (by-design differences modelled one by one: static vs heap strings, stateful Enumerate iterators, legacy zuin_*, chewing_ack) and this property's statement is evaluated on the C observations before/after the call; a difference or a failing statement is an oracle verdict with the history (FX2: the handlers narrowed the int key with `as u8`, repaired by fix a8c8390).",
     note="Trusted: Lean kernel (standard axioms), the read-only snapshot hook, harness + compiled model driver. The C getters "
          "(chewing_keystroke_CheckIgnore/CheckAbsorb, chewing_commit_Check, chewing_bopomofo_Check ...) and the key mapping of "
          "the chewing_handle_* handlers are tied to the editor by the capi_props run (sampled comparison with a lock-step twin "
